@@ -177,14 +177,14 @@ Plan generate_plan(const Desc& d, const Variant& v, const Profile& pf, uint64_t 
         fill_gv(op);
         if (!started) {
             // a stopped (or moved-from) machine: restart, destroy or assign to it
-            bool moved_from = mp && false;
-            (void)moved_from;
-            if (pf.w_assign && live.size() > 1 && rng.chance(0.4)) {
-                op.kind = OP_ASSIGN;
-                int other = on;
-                while (other == on) other = live[rng.below((uint32_t)live.size())];
-                op.other = (int8_t)other;
-            } else op.kind = OP_START;
+            bool moved_from = gw.moved[on];
+            std::vector<int> src;
+            for (int r : live) if (r != on && !gw.moved[r]) src.push_back(r);
+            if (pf.w_assign && !src.empty() && (moved_from || rng.chance(0.4))) {
+                op.kind = (mp && pf.w_move && rng.chance(0.3)) ? OP_MOVE_ASSIGN : OP_ASSIGN;
+                op.other = (int8_t)src[rng.below((uint32_t)src.size())];
+            } else if (moved_from) op.kind = OP_DESTROY;
+            else op.kind = OP_START;
             emit(op);
             continue;
         }
@@ -199,7 +199,7 @@ Plan generate_plan(const Desc& d, const Variant& v, const Profile& pf, uint64_t 
             {OP_COPY, (int)gw.reps.size() < pf.max_replicas ? pf.w_copy : 0},
             {OP_ASSIGN, live.size() > 1 ? pf.w_assign : 0},
             {OP_MOVE, mp && (int)gw.reps.size() < pf.max_replicas ? pf.w_move : 0},
-            {OP_SAVELOAD, (!mp && queues_empty) ? pf.w_saveload : 0},
+            {OP_SAVELOAD, (!mp && d.serializable && queues_empty) ? pf.w_saveload : 0},
             {OP_CLEARQ, !mp ? pf.w_clearq : 0}, {OP_DESTROY, live.size() > 1 ? pf.w_destroy : 0},
             {OP_OBSERVE, pf.w_observe}, {OP_SUBPROCESS, d.machines.size() > 1 ? pf.w_sub : 0},
             {OP_SETDATA, pf.w_setdata},
@@ -217,9 +217,10 @@ Plan generate_plan(const Desc& d, const Variant& v, const Profile& pf, uint64_t 
                 if (kind == OP_SUBPROCESS) op.other = (int8_t)(1 + rng.below((uint32_t)d.machines.size() - 1));
                 break;
             case OP_ASSIGN: {
-                int other = on;
-                while (other == on) other = live[rng.below((uint32_t)live.size())];
-                op.other = (int8_t)other;
+                std::vector<int> src;
+                for (int r : live) if (r != on && !gw.moved[r]) src.push_back(r);
+                if (src.empty()) { op.kind = OP_PROCESS; op.ev = (int16_t)alphabet[0]; op.occ = occ++; }
+                else op.other = (int8_t)src[rng.below((uint32_t)src.size())];
                 break;
             }
             case OP_SAVELOAD:
